@@ -35,6 +35,8 @@ type ATEpisode struct {
 	Foreign []ATStmt `json:"foreign,omitempty"`
 	// Redeliver: extra BranchRollback deliveries after the first round (C10)
 	Redeliver int `json:"redeliver,omitempty"`
+	// P2Faults (non-nil): database faults armed when phase one is over, counted from there (C10)
+	P2Faults []DBFault `json:"p2_faults"`
 	// CfgSwitch: configuration in force during phase two (C08: redeploy between the phases)
 	CfgSwitch *ATCfg `json:"cfg_switch,omitempty"`
 	// StopOnErr: the business returns the first statement / commit error (the
@@ -251,6 +253,8 @@ type episodeObs struct {
 	beforeP2 simdb.Snapshot // state after phase one (and the foreign writer), before phase two
 	jP2      int            // journal length when beforeP2 was taken
 	foreign  []ATStmt
+	// app-table snapshots after each repeated delivery (C10)
+	redelivered []simdb.Snapshot
 }
 
 func (r *atRun) runEpisode(idx int, ep *ATEpisode) *episodeObs {
@@ -299,6 +303,9 @@ func (r *atRun) runEpisode(idx int, ep *ATEpisode) *episodeObs {
 			o.foreign = foreign
 			o.beforeP2 = w.Srv.Snapshot()
 			o.jP2 = w.Srv.JournalLen()
+			if ep.P2Faults != nil {
+				w.Hook.Reset(ep.P2Faults)
+			}
 			for k := 0; k < ep.Between; k++ {
 				// another global transaction commits on rows of its own meanwhile
 				sim.Park("at-between", "")
@@ -324,6 +331,9 @@ func (r *atRun) runEpisode(idx int, ep *ATEpisode) *episodeObs {
 		return sim.Enabled() == 0 && tc.PendingP2() == 0 && sim.Now()-t1 > 5*time.Second
 	})
 	o.final = w.Srv.Snapshot()
+	if ep.Redeliver > 0 && o.done {
+		r.redeliver(o, ep.Redeliver)
+	}
 	r.res.Episodes++
 	return o
 }
